@@ -920,6 +920,9 @@ def run_container(run, spec, op, kind, rng, malformed=False):
             dd = op[-1] + n if op[-1] < 0 else op[-1]
             if dd == sd:
                 prefix = "along-stackdim:"
+                if op[0] == "splitlist" and any(x == 0 for x in op[1]):
+                    # a zero-length piece along the stack dim is a lazy stack without members (known finding: it has no keys)
+                    prefix = "along-stackdim-empty-piece:"
     try:
         if r is cont:
             impl, raw = ["self"], densify(cont)
